@@ -157,7 +157,13 @@ def same(a, b):
         return a == b or (a != a and b != b)
     if isinstance(a, (int, str, bool)) or a is None:
         return a == b
-    return a is b
+    if a is b:
+        return True
+    from statham.schema.elements import Object
+    if isinstance(a, Object) and hasattr(a, "_dict") and hasattr(b, "_dict"):
+        # built model instances are values, like the lists and dicts next to them: two builds of the same data are "the same"
+        return same(a._dict, b._dict)
+    return False
 
 
 def member_json(xs, x):
